@@ -76,6 +76,9 @@ func (fx *FuncCtx) selectModel(st *State, in *ssa.Select) {
 					if len(v.C) >= 1 {
 						fx.decls.declare("CH$nonnil", "(Array Int Bool)")
 						s.assume(implies(and(sx("select", "CH$nonnil", ch), ok), not(eq(v.C[0], "0"))))
+						// a channel that is never closed delivers only sent values
+						fx.decls.declare("CH$open", "(Array Int Bool)")
+						s.assume(implies(sx("select", "CH$open", ch), ok))
 					}
 					l := fx.chLenOf(s, ch)
 					closed := sx("select", fx.heapGet(s.heap, chClosed), ch)
